@@ -27,6 +27,7 @@ type HarnessSpec struct {
 	Thorough map[string]int    `json:"thorough"`
 	OnlyTier string            `json:"only_tier"`
 	MaxSteps int               `json:"max_steps"`
+	Solver   string            `json:"solver"`
 	Stubs    map[string]string `json:"stubs"` // target function -> harness function (pkg-relative "pkg.Func")
 	Note     string            `json:"note"`
 }
@@ -227,6 +228,10 @@ func cmdCheck(args []string) int {
 			for k, v := range pm {
 				P.params[k] = v
 			}
+			P.solverKind = envOr("VSYM_SOLVER", "z3-new")
+			if h.Solver != "" {
+				P.solverKind = h.Solver
+			}
 			P.unwind = 64
 			if h.Unwind > 0 {
 				P.unwind = h.Unwind
@@ -392,10 +397,16 @@ func cmdCheck(args []string) int {
 					}
 					if confirmed {
 						p.viol.nativeState = "confirmed"
+					} else if r.Skipped {
+						// the counterexample cannot be realised against the real environment (e.g. an instant equal
+						// to the real clock): it stands on the solver's verdict
+						p.viol.nativeState = "not-realisable-natively"
 					} else {
 						p.viol.nativeState = "mismatch"
 						p.viol.nativeInfo = fmt.Sprintf("native: failed=%v panicked=%v(%s) diverged=%q", r.Failed, r.Panicked, r.PanicVal, r.Diverged)
 					}
+				} else if r.Skipped {
+					// the harness declared the case not realisable natively
 				} else {
 					exp := p.witness.rec
 					okW := !r.Panicked && len(r.Failed) == 0 && r.Diverged == ""
@@ -525,6 +536,7 @@ type nativeResult struct {
 	PanicVal string   `json:"panic_value"`
 	Diverged string   `json:"diverged"`
 	Missing  bool     `json:"missing_harness"`
+	Skipped  bool     `json:"skipped"`
 }
 
 func goEnv() []string {
